@@ -52,6 +52,10 @@ class MonProcess(Process):
         self.mon_id = len(env.mon_procs)
         env.mon_procs.append(self)
         Process.__init__(self, env, generator)
+        mon = env._mon
+        if mon is not None:
+            for h in mon.proc_hooks:
+                h(self)
 
     def mon_locals(self):
         g = self._generator
